@@ -137,12 +137,25 @@ class Exec:
         while isinstance(v, Sym):
             if v.key in self.decisions:
                 i = self.decisions[v.key]
+            elif self.fixed_for(v) is not None:
+                i = self.fixed_for(v)
+                self.decisions[v.key] = i
             else:
                 i = self.decide(v.n, v.key) if v.n > 1 else 0
                 self.decisions[v.key] = i
             v = v.gen(self, i)
             cont[idx] = v
         return v
+
+    def fixed_for(self, v):
+        """drivers concretise dimensions their property does not depend on: [(compiled regex, label or index)]"""
+        for rx, what in self.prog.fixed:
+            if rx.search(v.key):
+                if isinstance(what, int):
+                    return what if what < v.n else None
+                if v.labels and what in v.labels:
+                    return v.labels.index(what)
+        return None
 
     def force(self, v):
         if isinstance(v, Sym):
@@ -244,7 +257,15 @@ class Exec:
             return self.run_body(b, [])
         if re.match(r'^-?\d+(\.\d+)?$', txt):
             return int(txt)
-        # zero-sized constants (fn items, markers)
+        # constant unit variants, e.g. `Option::<Infallible>::None`
+        flat = resolve.strip_generics(txt)
+        segs = [x for x in flat.split('::') if x]
+        if len(segs) >= 2 and self.prog.layout.is_enum(segs[-2]) and segs[-1] in self.prog.layout.enum_variants(segs[-2]):
+            return Obj(segs[-2], segs[-1], [])
+        # zero-sized constants: unit structs of this crate are values, the rest are fn items / markers
+        base = basename(txt)
+        if self.prog.layout.local_structs.get(base) == []:
+            return Obj(base, None, [], [])
         return FnItem(txt)
 
     def operand(self, fr, op):
@@ -597,6 +618,7 @@ class Program:
         self.ix = resolve.ImplIndex(bodies, repo)
         self.models = models
         self.solver_timeout_ms = solver_timeout_ms
+        self.fixed = []
 
 
 class PathResult:
